@@ -60,3 +60,68 @@ func h07t(n int) {
 	vxAssert("concat-copyright", len(full.cr) == len(bx.cr))
 	vxCover("end")
 }
+
+func init() {
+	vxRegister("H07mQ", H07mQ)
+	vxRegister("H07mT", H07mT)
+}
+
+func H07mQ() { h07m(1) }
+func H07mT() { h07m(2) }
+
+// h07m: Match is shift-equivariant - X embedded between out-of-vocabulary blocks yields exactly the
+// matches of X alone, shifted by the size of the preceding block.
+func h07m(edits int) {
+	t := []float64{0.7, 0.8}[vxChoice(2)]
+	worlds := [][]int{{0}, {1}, {0, 1}, {2, 3}}
+	docs := worlds[vxChoice(len(worlds))]
+	c := vxBuildWorld(t, docs...)
+	K := vxFamily[docs[vxChoice(len(docs))]]
+	X := vxNoisyCopy(K, []string{"a", "b", "h"}, edits)
+	vxAssume(len(X) >= c.q)
+	pat := vxChoice(3)
+	xw, xb := vxEmbed(X, 0, 0, pat)
+	if len(xb) > 0 {
+		xb[len(xb)-1] = false
+	}
+	alone := vxText(xw, xb)
+	a, b := vxChoice(3)+1, vxChoice(3)+1
+	plines := vxChoice(2) + 1 // the prefix block occupies 1 or 2 lines and ends with a newline
+	var pre []byte
+	for i := 0; i < a; i++ {
+		pre = append(pre, "zzz"...)
+		if i == a-1 || (plines == 2 && i == 0 && a > 1) {
+			pre = append(pre, '\n')
+		} else {
+			pre = append(pre, ' ')
+		}
+	}
+	dl := 0
+	for _, ch := range pre {
+		if ch == '\n' {
+			dl++
+		}
+	}
+	var suf []byte
+	suf = append(suf, '\n')
+	for i := 0; i < b; i++ {
+		suf = append(suf, "qqq "...)
+	}
+	embedded := append(append(append([]byte{}, pre...), alone...), suf...)
+	r0 := c.Match(alone)
+	r1 := c.Match(embedded)
+	vxAssert("shift-count", len(r0.Matches) == len(r1.Matches))
+	if len(r0.Matches) == len(r1.Matches) {
+		for i := range r0.Matches {
+			m0, m1 := r0.Matches[i], r1.Matches[i]
+			vxAssert("shift-identity", m0.Name == m1.Name && m0.MatchType == m1.MatchType && m0.Variant == m1.Variant)
+			vxAssert("shift-confidence", m0.Confidence == m1.Confidence)
+			vxAssert("shift-tokens", m1.StartTokenIndex == m0.StartTokenIndex+a && m1.EndTokenIndex == m0.EndTokenIndex+a)
+			vxAssert("shift-lines", m1.StartLine == m0.StartLine+dl && m1.EndLine == m0.EndLine+dl)
+		}
+	}
+	if len(r0.Matches) > 0 {
+		vxCover("has-match")
+	}
+	vxCover("end")
+}
